@@ -66,6 +66,8 @@ def run_case(case):
             return {"discard": "unmodelled-sim"}
         except sim.SimError as exc:
             return {"failures": [{"sig": "unexecutable-blueprint", "detail": str(exc)}], "sample": {"program": text}}
+        if missing:
+            return {"discard": "input-unlabelled", "classes": ["input-unlabelled"]}
         if ticks is None:
             fails.append({"sig": "no-settle", "detail": {"valuation": val}})
             continue
